@@ -167,8 +167,9 @@ func runProtocol(t *rapid.T, c runCfg) (dups, reorders int) {
 		net.SetShuffle(sc.shuffle)
 	}
 	net.SetInterceptor(dupInterceptor(sc, c.dupPct, nil))
-	res, oc := netsim.RunAll(net, runners, netsim.Options{Idle: 60 * time.Second, Hard: 10 * time.Minute})
+	res, oc := netsim.RunAll(net, runners, netsim.Options{Idle: hardBound(60*time.Second, 10*time.Second), Hard: hardBound(4*time.Minute, 40*time.Second)})
 	if oc.HardStop {
+		hangSeen.Store(true)
 		t.Fatalf("did not terminate within the hard bound (%s)", what)
 	}
 	outs := map[proto.ID]any{}
@@ -178,7 +179,8 @@ func runProtocol(t *rapid.T, c runCfg) (dups, reorders int) {
 			t.Fatalf("party %d panicked: %v\n%s\n(%s)", id, r.Panic, r.Stack, what)
 		}
 		if r.Err != nil || r.Cancelled {
-			t.Fatalf("party %d did not complete under reordering / identical retransmission (cancelled=%v): %v (%s)", id, r.Cancelled, r.Err, what)
+			hangSeen.Store(r.Cancelled || hangSeen.Load())
+		t.Fatalf("party %d did not complete under reordering / identical retransmission (cancelled=%v): %v (%s)", id, r.Cancelled, r.Err, what)
 		}
 		outs[id] = r.Out
 	}
